@@ -65,9 +65,17 @@ fn guard_to_boundary<T: ToTokens>(
             // Nothing to validate, so every possible value for the inner type is valid.
         }
         IntegerGuard::WithValidation {
-            sanitizers: _,
+            sanitizers,
             validation,
         } => {
+            // A custom sanitizer may move a value generated within the boundaries out of them,
+            // so the generated value could be rejected by the validators (same rule as for floats).
+            if !sanitizers.is_empty() {
+                return Err(syn::Error::new(
+                    proc_macro2::Span::call_site(),
+                    "It's not possible to derive `Arbitrary` trait for a type with `with` sanitizer and validations.\nYou have to implement `Arbitrary` trait on you own.",
+                ));
+            }
             match validation {
                 Validation::Custom { .. } => {
                     return Err(syn::Error::new(
